@@ -52,6 +52,19 @@ def independent_residual(make_items, res_x, dof0, dof1, statevars=None):
     return float(np.linalg.norm(f[dof1])), float(np.linalg.norm(f[dof0]))
 
 
+def prescribed(field, bounds, dof0):
+    """the prescribed values at dof0, laid out by the driver itself (field offsets = cumulative sizes; a boundary's value broadcast
+    over its unknowns; later boundaries win) -- independent of felupe.dof.apply, which is what the solver used"""
+    sizes = [f.values.size for f in field.fields]
+    offs = np.concatenate([[0], np.cumsum(sizes)[:-1]]).astype(int)
+    full = np.concatenate([f.values.ravel() for f in field.fields]).astype(float)
+    for b in bounds.values():
+        k = [n for n, f in enumerate(field.fields) if f is b.field][0]
+        full[offs[k] + np.asarray(b.dof, int)] = np.broadcast_to(np.asarray(b.value, float).ravel() if np.ndim(b.value) else float(b.value),
+                                                                  (len(b.dof),))
+    return full[dof0]
+
+
 def problems(tier):
     """name -> builder; a builder returns dict(field, make_items, boundaries|loadcase, ramp, linear, ...)"""
     P = {}
@@ -101,6 +114,8 @@ def problems(tier):
 
     add("hex-mixed-threefield", mixed,
         lambda f, sv=None: [fem.SolidBody(fem.ThreeFieldVariation(fem.NeoHooke(mu=1.25, bulk=50.0)), f)])
+    add("hex-mixed-threefield-Jbc", mixed,
+        lambda f, sv=None: [fem.SolidBody(fem.ThreeFieldVariation(fem.NeoHooke(mu=1.25, bulk=50.0)), f)], lc="uniaxial-Jbc", maxiter=12)
     add("hex-nearly-incompressible", cube,
         lambda f, sv=None: [fem.SolidBodyNearlyIncompressible(fem.NeoHooke(mu=1.25), f, bulk=500.0)])
 
@@ -151,6 +166,14 @@ def problems(tier):
 
 
 def loadcase(kind, field, kw):
+    if kind == "uniaxial-Jbc":
+        # mixed (u, p, J) container: besides the displacement load case, the volume ratio of two cells is PRESCRIBED (a boundary on
+        # the third field; its value differs from the current one)
+        bounds, lc = fem.dof.uniaxial(field, **kw)
+        mask = np.zeros(field[2].values.shape, dtype=bool)
+        mask[[1, 4]] = True
+        bounds["J"] = fem.Boundary(field[2], mask=mask, value=1.0 + 1.0 / 64)
+        return bounds, lc
     fn = {"uniaxial": fem.dof.uniaxial, "shear": fem.dof.shear, "biaxial": fem.dof.biaxial}[kind]
     return fn(field, **kw)
 
@@ -186,20 +209,20 @@ def run_problem(name, p, variant, tout, laws):
             ext0 = fem.dof.apply(field, b2, dof0)
             svb = copy.deepcopy(items[0].results.statevars)
             res = fem.newtonrhapson(items=items, dof0=dof0, dof1=dof1, ext0=ext0, verbose=0, **kw)
-            record(res, dof0, dof1, ext0, svb, tid)
+            record(res, dof0, dof1, prescribed(field, b2, dof0), svb, tid)
             # continuation from the converged state with a new prescribed value
             [m.update(p["ramp"][-1]) for m in movers]
             ext0 = fem.dof.apply(field, b2, dof0)
             svb = copy.deepcopy(items[0].results.statevars)
             res = fem.newtonrhapson(items=items, dof0=dof0, dof1=dof1, ext0=ext0, verbose=0, **kw)
-            record(res, dof0, dof1, ext0, svb, tid + "#cont")
+            record(res, dof0, dof1, prescribed(field, b2, dof0), svb, tid + "#cont")
             # continuation by a very fine increment, and a micro-scale prescribed value from the virgin state:
             # the prescribed values must still be carried exactly (bit patterns)
             [m.update(p["ramp"][-1] + 2.0e-6) for m in movers]
             ext0 = fem.dof.apply(field, b2, dof0)
             svb = copy.deepcopy(items[0].results.statevars)
             res = fem.newtonrhapson(items=items, dof0=dof0, dof1=dof1, ext0=ext0, verbose=0, **kw)
-            record(res, dof0, dof1, ext0, svb, tid + "#fine")
+            record(res, dof0, dof1, prescribed(field, b2, dof0), svb, tid + "#fine")
             field2 = p["field_fn"]()
             items2 = p["items_fn"](field2, None)
             bounds2, _ = loadcase(p["lc"], field2, p["lckw"])
@@ -210,7 +233,7 @@ def run_problem(name, p, variant, tout, laws):
             n1, n0 = independent_residual(p["items_fn"], res.x, d0, d1, None)
             xv = np.concatenate([f.values.ravel() for f in res.x.fields])
             laws.write({"id": tid + "#micro", "kind": "newton", "nt": True, "success": bool(res.success), "iterations": int(res.iterations),
-                        "linear": bool(p["linear"]), "xd": fhex(xv[d0]), "ext": fhex(e0), "n0": len(d0),
+                        "linear": bool(p["linear"]), "xd": fhex(xv[d0]), "ext": fhex(prescribed(field2, bounds2, d0)), "n0": len(d0),
                         "ratio": fp(n1 / (1e-3 + n0)), "tol": fp(tol), "maxiter": int(p["maxiter"])})
         else:
             ramp = list(p["ramp"])
@@ -223,7 +246,7 @@ def run_problem(name, p, variant, tout, laws):
                 b = step.boundaries
                 dof0, dof1 = fem.dof.partition(field, b)
                 ext0 = fem.dof.apply(field, b, dof0)
-                record(res, dof0, dof1, ext0, state["sv"], "%s#%d" % (tid, state["n"]))
+                record(res, dof0, dof1, prescribed(field, b, dof0), state["sv"], "%s#%d" % (tid, state["n"]))
                 state["sv"] = copy.deepcopy(items[0].results.statevars)
                 state["n"] += 1
 
